@@ -108,6 +108,8 @@ class TSBurstDetector(Elaboratable):
                 with m.If(data_matches & ctrl_matches):
                     m.next = f"{count + 1}_DETECTED"
                 with m.Else():
+                    # Any other word ends our run of consecutive sets.
+                    m.d.ss += consecutive_set_count.eq(0)
                     m.next = fail_state
 
 
